@@ -134,6 +134,41 @@ def edge_scripts(work, module, cfg, tag, workers=4, timeout=900):
     return scripts, stats
 
 
+def graph_scripts(work, num_acyclic, num_cyclic, sd, timeout=600):
+    """Random task graphs (any DAG over up to 7 named tasks, optionally closed to a cycle) drawn by `tlc -simulate` from Graphs.tla;
+    each becomes a script: two jobs of a pipeline with that graph, drained."""
+    rc, out = tlc(work, "Graphs.tla", "Graphs.cfg", workers=4, timeout=timeout,
+                  extra=["-simulate", "num=%d" % max(50, num_acyclic // 4), "-depth", "12", "-seed", str(sd)])
+    seen, acyc, cyc = set(), [], []
+    for line in out.splitlines():
+        if not line.startswith('"GRAPH '):
+            continue
+        try:
+            g = json.loads(json.loads(line)[6:])
+        except ValueError:
+            continue
+        key = json.dumps(g, sort_keys=True)
+        if key in seen:
+            continue
+        seen.add(key)
+        (cyc if g["cyclic"] else acyc).append(g)
+    if not acyc:
+        raise Infra("Graphs.tla produced no graphs:\n" + out[-2000:])
+    import random
+    rnd = random.Random(sd)
+    rnd.shuffle(cyc)
+    scripts = []
+    for i, g in enumerate(acyc[:num_acyclic] + cyc[:num_cyclic]):
+        ver = {"p": 1, "conc": 2, "qlimit": -1, "replace": False, "delay": 0, "cont": False, "retCount": 0, "retPeriod": 0,
+               "tasks": g["tasks"], "cyclic": g["cyclic"]}
+        other = {"p": 2, "conc": 1, "qlimit": -1, "replace": False, "delay": 0, "cont": False, "retCount": 0, "retPeriod": 0,
+                 "tasks": [{"name": "a", "deps": [], "allow": False, "empty": False}], "cyclic": False}
+        steps = [{"op": "schedule", "p": 1}, {"op": "schedule", "p": 2}, {"op": "schedule", "p": 1}, {"op": "drain"}]
+        scripts.append({"id": "graph-%d-%05d" % (sd, i + 1), "src": "tlc-simulate Graphs.tla seed %d" % sd, "np": 2, "vers": [ver, other],
+                        "init": [1, 2], "steps": steps, "seed": 0})
+    return scripts
+
+
 def hand_scripts():
     out = []
     for f in sorted(glob.glob(os.path.join(VERIF, "scripts", "*.ndjson"))):
@@ -308,11 +343,11 @@ def model_check(work, cfgs, workers=8, timeout=1500):
 TIERS = {
     "quick": {"sim": [("Sim_Core.tla", "Sim_Core.cfg", 480, 200), ("Sim_Life.tla", "Sim_Life.cfg", 320, 200)],
               "edges": [("Edges_Sched.tla", "Edges_Sched.cfg", "esched"), ("Edges_Delay.tla", "Edges_Delay.cfg", "edelay")],
-              "mc": [("MC_Core.tla", "MC_Core.cfg"), ("MC_Sched.tla", "MC_Sched.cfg"), ("MC_Delay.tla", "MC_Delay.cfg")]},
+              "mc": [("MC_Core.tla", "MC_Core.cfg"), ("MC_Sched.tla", "MC_Sched.cfg"), ("MC_Delay.tla", "MC_Delay.cfg"), ("MC_Delay.tla", "MC_Live.cfg")]},
     "thorough": {"sim": [("Sim_Core.tla", "Sim_Core.cfg", 6000, 300), ("Sim_Life.tla", "Sim_Life.cfg", 4000, 300)],
                  "edges": [("Edges_Sched.tla", "Edges_Sched.cfg", "esched"), ("Edges_Delay.tla", "Edges_Delay.cfg", "edelay"),
                            ("Edges_Core.tla", "Edges_Core.cfg", "ecore")],
-                 "mc": [("MC_Core.tla", "MC_Core.cfg"), ("MC_Sched.tla", "MC_Sched.cfg"), ("MC_Delay.tla", "MC_Delay.cfg"),
+                 "mc": [("MC_Core.tla", "MC_Core.cfg"), ("MC_Sched.tla", "MC_Sched.cfg"), ("MC_Delay.tla", "MC_Delay.cfg"), ("MC_Delay.tla", "MC_Live.cfg"),
                         ("MC_Core.tla", "MC_Core3.cfg"), ("MC_Life.tla", "MC_Life.cfg")]},
 }
 
@@ -342,6 +377,9 @@ def engine(tier):
             for module, cfg, num, depth in TIERS[tier]["sim"]:
                 if os.path.exists(os.path.join(work, cfg)):
                     gen_jobs.append(("sim", pool.submit(simulate_scripts, work, cfg, module, num, depth, seed(), 4, 900, cfg[4:-4].lower())))
+            ga, gc = (400, 120) if tier == "quick" else (4000, 1000)
+            if os.path.exists(os.path.join(work, "Graphs.cfg")):
+                gen_jobs.append(("sim", pool.submit(graph_scripts, work, ga, gc, seed())))
             mc_future = pool.submit(model_check, work, [(m, c) for m, c in TIERS[tier]["mc"] if os.path.exists(os.path.join(work, c))], 4)
             for kind, fut in gen_jobs:
                 if kind == "edge":
